@@ -57,6 +57,8 @@ func runC12(c *Ctx, r *Report) {
 	c12Index(c, r)
 	c12ValueOnly(c, r)
 	c12NoRecordDropped(c, r)
+	r.Rule("R12.7", "restructuring verbs order fields with stable sorts only: every sort call in the C12 verb files is a stable sort or a sort of plain strings (whose ties are identical); an unstable sort of fields that tie (cut -r -o: fields matching the same regex) would change their relative order in wide records")
+	checkStableSorts(c, r, "R12.7", c12VerbFiles, 3)
 }
 
 func c12Ownership(c *Ctx, r *Report) {
